@@ -236,6 +236,11 @@ def run(ctx):
                     corr_expr.append(f"run_mapping {lit(gaps)} {rs} {ps}")
                     corr_exp.append([entries, [[c, s] for c, s in m.strands_sequences], rows])
                     corr_case.append(case)
+                    # the three-line-per-strand text: names, sequences and the slices of the whole dot-bracket
+                    dbl = m.dot_bracket.split("\n")
+                    corr_expr.append(f"run_strand_texts {lit(gaps)} {rs} {lit(m.bpseq.dot_bracket.structure)}")
+                    corr_exp.append([[nm[len(">strand_"):] if nm.startswith(">strand_") else nm, sq, st] for nm, sq, st in zip(dbl[0::3], dbl[1::3], dbl[2::3])] if m.strands_sequences else [])
+                    corr_case.append(dict(case, compared="per-strand text"))
                     if len(ctx.coverage["samples"]) < 3 and lkind.startswith("multiplet"):
                         ctx.sample({**case, "extended": m.extended_dot_bracket})
     if not ctx.model_ok:
